@@ -34,9 +34,18 @@ func (vc *FnVC) script(ob *Obligation, caseIdx int, extra string, getValues []st
 			fmt.Fprintf(&b, "(assert (distinct %s))\n", strings.Join(vc.Ctx.globals, " "))
 		}
 	}
+	// noQuant: drop every quantified assumption (sound: a weaker context). Most safety and frame
+	// obligations do not need them and are decided much faster without.
+	noQuant := strings.HasPrefix(extra, ";NOQUANT")
+	isQ := func(s string) bool {
+		return strings.HasPrefix(s, "(assert") && (strings.Contains(s, "(forall ") || strings.Contains(s, "(exists "))
+	}
 	for i, it := range vc.Items {
 		if i >= ob.Index {
 			break
+		}
+		if noQuant && ((it.Ob != nil && isQ("(assert "+it.Ob.Goal)) || (it.Ob == nil && !it.Case && isQ(it.Text))) {
+			continue
 		}
 		if it.Case {
 			if caseIdx >= 0 && caseIdx < len(vc.Cases) {
@@ -205,6 +214,28 @@ func decide(script string, timeoutS int, all bool) (solverAnswer, int, string) {
 	return win, agree, detail
 }
 
+// decideOb: quantifier-free context first (when the script has quantified assumptions at all),
+// the full context only if that does not already prove the obligation.
+func decideOb(vc *FnVC, ob *Obligation, k int, timeoutS int, all bool) (solverAnswer, int, string, string) {
+	full := vc.script(ob, k, "", nil)
+	if strings.Contains(full, "(forall ") || strings.Contains(full, "(exists ") {
+		qf := vc.script(ob, k, ";NOQUANT", nil)
+		if !(strings.Contains(qf, "(forall ") || strings.Contains(qf, "(exists ")) || true {
+			t := timeoutS
+			if t > 5 {
+				t = 5
+			}
+			win, agree, detail := decide(qf, t, all)
+			if win.status == "unsat" {
+				win.solver += "(qf)"
+				return win, agree, detail, qf
+			}
+		}
+	}
+	win, agree, detail := decide(full, timeoutS, all)
+	return win, agree, detail, full
+}
+
 func (g *Global) solveOne(vc *FnVC, ob *Obligation, timeoutS int, thorough bool) *Result {
 	expectSat := ob.Canary || ob.Cover
 	r := &Result{Ob: ob, VC: vc, Case: -1}
@@ -215,21 +246,36 @@ func (g *Global) solveOne(vc *FnVC, ob *Obligation, timeoutS int, thorough bool)
 		}
 	}
 	if expectSat || len(vc.Cases) == 0 || ob.Kind == "split" || ob.Kind == "vacuity" {
-		script := vc.script(ob, -1, "", nil)
-		keep(script, -1)
 		if ob.Cover && timeoutS > 6 {
 			timeoutS = 6 // covers are best effort: models of quantified contexts are often not found
 		}
-		win, agree, detail := decide(script, timeoutS, thorough && !expectSat)
+		var win solverAnswer
+		var agree int
+		var detail, script string
+		if expectSat {
+			script = vc.script(ob, -1, "", nil)
+			win, agree, detail = decide(script, timeoutS, false)
+			if win.status != "sat" && win.status != "unsat" && strings.Contains(script, "(forall ") {
+				// solvers rarely produce models in the presence of quantified assumptions: accept a
+				// model of the context without them (the quantifier-free part is then not contradictory)
+				w2, a2, d2 := decide(vc.script(ob, -1, ";NOQUANT", nil), timeoutS, false)
+				if w2.status == "sat" {
+					w2.solver += "(qf)"
+					win, agree, detail = w2, a2, d2+" model of the quantifier-free part of the context"
+				}
+			}
+		} else {
+			win, agree, detail, script = decideOb(vc, ob, -1, timeoutS, thorough)
+		}
+		keep(script, -1)
 		r.Status, r.Solver, r.Ms, r.Output, r.Agree, r.Detail = win.status, win.solver, win.ms, win.out, agree, detail
 	} else {
 		// every case must be unsat
 		r.Status = "unsat"
 		r.Agree = 99
 		for k := range vc.Cases {
-			script := vc.script(ob, k, "", nil)
+			win, agree, detail, script := decideOb(vc, ob, k, timeoutS, thorough)
 			keep(script, k)
-			win, agree, detail := decide(script, timeoutS, thorough)
 			r.Ms += win.ms
 			r.Solver = win.solver
 			if agree < r.Agree {
